@@ -21,12 +21,12 @@ def gen_scalar(rng):
 
 def gen_doc(rng, depth=3, width=3, names=None, allow_scalar_root=True):
     names = names or NAME_POOL
-    if depth <= 0 or (allow_scalar_root and rng.random() < 0.25):
+    if depth <= 0 or (allow_scalar_root and rng.random() < 0.2):
         return gen_scalar(rng)
     if rng.random() < 0.5:
-        n = rng.randint(0, width)
+        n = rng.randint(1, width + 1) if rng.random() < 0.8 else 0
         return [gen_doc(rng, depth - 1, width, names) for _ in range(n)]
-    n = rng.randint(0, width)
+    n = rng.randint(1, width) if rng.random() < 0.8 else 0
     ks = []
     for _ in range(n):
         k = rng.choice(names) if rng.random() < 0.7 else rng.choice(["a", "b", "c", "0", "1"])
